@@ -831,11 +831,16 @@ func TestVerifC06Sweep(t *testing.T) {
 		}
 		// Once with a live claim read, once with a claim read that lags the store (if the claim has that many versions).
 		sweep(w, rec, stage, 0, followLag)
-		sweep(w, rec, stage, lag, followLag)
+		for l := 1; l <= lag; l++ {
+			if eff := sweep(w, rec, stage, l, followLag); eff < l {
+				break // the claim has no older version the controller could still be looking at
+			}
+		}
 	})
 }
 
-func sweep(w *world, rec *verifkit.Recorder, stage string, lag, followLag int) {
+// sweep returns the effective lag of the swept reconcile's claim read.
+func sweep(w *world, rec *verifkit.Recorder, stage string, lag, followLag int) int {
 	sc := w.sc
 	base := w.sim.Snapshot()
 	baseSt := w.st.clone()
@@ -848,9 +853,16 @@ func sweep(w *world, rec *verifkit.Recorder, stage string, lag, followLag int) {
 		// The cache cannot lag here (the controller has already observed the newest version): same as the live sweep.
 		w.sim.Restore(base)
 		w.st = baseSt.clone()
-		return
+		return 0
 	}
-	rec.Labelf("sweep-effective-lag=%d", w.lastLag)
+	effLag := w.lastLag
+	if lag > 0 && effLag < lag {
+		// Clamped: identical to the sweep already done for the smaller lag.
+		w.sim.Restore(base)
+		w.st = baseSt.clone()
+		return effLag
+	}
+	rec.Labelf("sweep-effective-lag=%d", effLag)
 	w.check(fmt.Sprintf("stage %s / fault-free probe (lag %d)", stage, lag))
 	probeLog := w.sim.Log()[baseLog:]
 	K := probe.N
@@ -887,6 +899,7 @@ func sweep(w *world, rec *verifkit.Recorder, stage string, lag, followLag int) {
 	}
 	w.sim.Restore(base)
 	w.st = baseSt.clone()
+	return effLag
 }
 
 func callName(r *verifsim.Run, k int) string {
